@@ -239,7 +239,7 @@ class ModbusRtuFramer(ModbusFramer):
                 else:
                     _logger.debug("Not a valid unit id - {}, "
                                   "ignoring!!".format(self._header['uid']))
-                    self.resetFrame()
+                    self.advanceFrame()
             elif self._buffer:
                 # checkFrame() empties the buffer itself on a CRC mismatch; if
                 # bytes are still there the frame is merely incomplete: keep
